@@ -433,9 +433,9 @@ class Context:
                         result = self._call_function(comparator, [a, b])
                     else:
                         result = comparator(a, b)
-                    # Convert to integer for cmp_to_key
-                    num = to_number(result) if result is not UNDEFINED else 0
-                    return int(num) if isinstance(num, (int, float)) else 0
+                    # Only the sign matters to cmp_to_key; NaN compares as equal
+                    num = to_number(result)
+                    return (num > 0) - (num < 0)
                 return default_compare(a, b)
 
             # Sort using Python's sort with custom key
